@@ -832,8 +832,10 @@ class NetworkXGraphStorage:
 
         def del_graph(self, graph_id: str) -> None:
             self.lock.acquire()
-            self.__del_graph_nl(graph_id)
-            self.lock.release()
+            try:
+                self.__del_graph_nl(graph_id)
+            finally:
+                self.lock.release()
 
         def extract_graph(self, graph_id: str) -> nx.Graph or None:
             self.lock.acquire()
@@ -861,8 +863,10 @@ class NetworkXGraphStorage:
 
         def del_all_graphs(self) -> None:
             self.lock.acquire()
-            self.graphs.clear()
-            self.lock.release()
+            try:
+                self.graphs.clear()
+            finally:
+                self.lock.release()
 
         def add_blank_node_to_graph(self, graph_id, **attrs) -> int:
             # add a new node into a graph, return internal
